@@ -286,12 +286,14 @@ pub fn c08(opts: &Opts, out: &mut Out) {
     let mut rng = chacha(opts.seed, 8);
     let mut classes = std::collections::BTreeSet::new();
     let configs: Vec<(usize, usize, usize)> = if opts.thorough { vec![(2, 2, 1), (2, 3, 2), (2, 4, 3), (4, 2, 6), (8, 3, 4), (2, 4, 1)] } else { vec![(2, 2, 1), (2, 3, 2), (4, 4, 3)] };
-    for (n, k, t) in configs {
+    // both verifying modes: the weights must bind the proofs whichever mode checks the equation
+    let configs: Vec<(usize, usize, usize, usize)> = configs.iter().flat_map(|&(n, k, t)| [(n, k, t, 0usize), (n, k, t, 1usize)]).collect();
+    for (n, k, t, mode) in configs {
         let mut insts = vec![];
         let mut stmts = vec![];
         let mut proofs = vec![];
         for i in 0..k {
-            let inst = fmrun::random_inst(n, 1 << (i % 2), 2, t, i + 4, false, &mut rng);
+            let inst = fmrun::random_inst(n, 1 << (i % 2), 2, t, i + 4, mode == 1, &mut rng);
             stmts.push(inst.statement());
             proofs.push(inst.prove(&mut rng).unwrap());
             insts.push(inst);
@@ -317,7 +319,7 @@ pub fn c08(opts: &Opts, out: &mut Out) {
             let mut ts: Vec<_> = insts.iter().map(|i| i.transcript()).collect();
             tap::start();
             fm::tap_start();
-            let r = Proof::verify_batch(&mut ts, &stmts, &ps, VerifyAction::VerifyOnly);
+            let r = Proof::verify_batch(&mut ts, &stmts, &ps, if mode == 0 { VerifyAction::VerifyOnly } else { VerifyAction::RecoverAndVerify });
             if !fm::tap_is_whole_check() {
                 whole_flag.set(false);
             }
@@ -338,7 +340,7 @@ pub fn c08(opts: &Opts, out: &mut Out) {
                     continue;
                 }
                 for kk in 0..t {
-                    let key = format!("n={} k={} t={} pair=({},{}) coord={}", n, k, t, i, j, kk);
+                    let key = format!("n={} k={} t={} mode={} pair=({},{}) coord={}", n, k, t, if mode == 0 { "verify" } else { "recover+verify" }, i, j, kk);
                     let delta = Scalar::from(7u8);
                     // run A: perturb member i only -> residual = w_i * delta on Gb_kk reveals the factor w_i
                     let mut oa = zero.clone();
@@ -376,7 +378,7 @@ pub fn c08(opts: &Opts, out: &mut Out) {
                     let _ = fi_c;
                     // ratio changes when only r1 of member i changes
                     if !whole {
-                        classes.insert((n, k, t, kk));
+                        classes.insert((n, k, t, mode, kk));
                         continue;
                     }
                     let mut zr2 = zr.clone();
@@ -403,7 +405,7 @@ pub fn c08(opts: &Opts, out: &mut Out) {
                     let (_, rg, _) = run3(&ob, &zr, &zs2);
                     let fj3 = rg.coord(ids.gb[kk]) * delta.invert();
                     out.oracle("C08:ratio-changes-with-other-members-responses", fj3 != fj, &key, "factor of member j unchanged after changing s1 of member i");
-                    classes.insert((n, k, t, kk));
+                    classes.insert((n, k, t, mode, kk));
                 }
             }
         }
